@@ -94,7 +94,7 @@ ASSUMPTIONS = ['IEEE double arithmetic and numpy comparison are the '
                'masked coordinates are outside the generated domain; a raise '
                'other than the requested out-of-bounds rejection is counted, '
                'not judged (R3)']
-BUDGET = {'quick': dict(examples=9600, max_s=200),
+BUDGET = {'quick': dict(examples=14400, max_s=200),
           'thorough': dict(examples=600000, max_s=2400)}
 
 Q = 0.25   # coordinate quantum
